@@ -90,7 +90,22 @@ func runC18Case(c *c18Case) c18Res {
 			cb.add("H:" + id)
 			return nil
 		})
+	hasFlood := false
+	for _, k := range c.Clients {
+		if k == "est-flood" {
+			hasFlood = true
+		}
+	}
+	if hasFlood {
+		// a session whose notifications are not being consumed: a one-slot buffer and a handler that
+		// holds on to the first notification until its context ends
+		b.ChannelBufferSize(1).NotificationsHandlerFunc(func(ctx context.Context, _ *lime.Notification) error {
+			<-ctx.Done()
+			return nil
+		})
+	}
 	dials := []func() (lime.Transport, error){}
+	rawDials := []func() (net.Conn, error){} // ws listeners only: a bare TCP connection to the HTTP server
 	for _, l := range c.Listeners {
 		switch l {
 		case "inproc":
@@ -116,6 +131,7 @@ func runC18Case(c *c18Case) c18Res {
 				return res
 			}
 			b.ListenWebsocket(a, nil)
+			rawDials = append(rawDials, func() (net.Conn, error) { return net.DialTimeout("tcp", a.String(), 2*time.Second) })
 			dials = append(dials, func() (lime.Transport, error) {
 				ctx, cl := context.WithTimeout(context.Background(), 2*time.Second)
 				defer cl()
@@ -152,11 +168,26 @@ func runC18Case(c *c18Case) c18Res {
 		sid  string
 	}
 	clis := []*cli{}
+	pending := []net.Conn{}
 	if c.CloseAt != "start" {
 		if !waitReady() {
 			res.Problems = append(res.Problems, "harness: server did not become ready")
 		}
 		for i, k := range c.Clients {
+			if k == "half-upgrade" {
+				// a connection in the middle of its WebSocket upgrade request when the server is closed
+				if len(rawDials) == 0 {
+					continue
+				}
+				rc, err := rawDials[i%len(rawDials)]()
+				if err != nil {
+					res.Problems = append(res.Problems, "harness: raw dial: "+err.Error())
+					continue
+				}
+				_, _ = rc.Write([]byte("GET / HTTP/1.1\r\nHost: verif\r\nUpgrade: websocket\r\nConnection: Upg"))
+				pending = append(pending, rc)
+				continue
+			}
 			t, err := dials[i%len(dials)]()
 			if err != nil {
 				res.Problems = append(res.Problems, "harness: dial: "+err.Error())
@@ -166,6 +197,24 @@ func runC18Case(c *c18Case) c18Res {
 			clis = append(clis, cl)
 			ctx, cancel := context.WithTimeout(context.Background(), 5*time.Second)
 			switch k {
+			case "est-flood":
+				ses, err := cl.ch.EstablishSession(ctx, lime.NoneCompressionSelector, lime.NoneEncryptionSelector,
+					lime.Identity{Name: guestUUID, Domain: "verif.local"}, lime.GuestAuthenticator, "i")
+				if err == nil && ses.State == lime.SessionStateEstablished {
+					cl.est = true
+					cl.sid = ses.ID
+					res.Established++
+					for j := 0; j < 6; j++ {
+						n := &lime.Notification{Event: lime.NotificationEventReceived}
+						n.ID = fmt.Sprintf("n%d", j)
+						sctx, sc := context.WithTimeout(context.Background(), time.Second)
+						_ = cl.ch.SendNotification(sctx, n)
+						sc()
+					}
+					time.Sleep(50 * time.Millisecond) // let the server's receiver run into the full buffer
+				} else {
+					res.Problems = append(res.Problems, fmt.Sprintf("harness: establish failed: %v", err))
+				}
 			case "est":
 				ses, err := cl.ch.EstablishSession(ctx, lime.NoneCompressionSelector, lime.NoneEncryptionSelector,
 					lime.Identity{Name: guestUUID, Domain: "verif.local"}, lime.GuestAuthenticator, "i")
@@ -273,6 +322,21 @@ func runC18Case(c *c18Case) c18Res {
 			}
 			t.Close()
 		}
+	}
+	// a connection that was in the middle of its upgrade request is closed by the server, not left open
+	for _, rc := range pending {
+		_ = rc.SetReadDeadline(time.Now().Add(4 * time.Second))
+		buf := make([]byte, 256)
+		for {
+			_, err := rc.Read(buf)
+			if err != nil {
+				if ne, ok := err.(net.Error); ok && ne.Timeout() {
+					res.Problems = append(res.Problems, "a connection accepted by the ws listener before Close (upgrade request not complete) is still open 4 s after Close and the return of ListenAndServe")
+				}
+				break
+			}
+		}
+		rc.Close()
 	}
 	// every established client observes finished
 	for _, cl := range clis {
@@ -388,7 +452,7 @@ func genC18Case(e *Env) *c18Case {
 		c.Clients = append(c.Clients, "est-closing")
 	}
 	if c.CloseAt == "clients" {
-		kinds := []string{"est", "est", "half", "dial", "bad"}
+		kinds := []string{"est", "est", "half", "dial", "bad", "est-flood", "half-upgrade"}
 		m := 1 + r.Intn(3)
 		for i := 0; i < m; i++ {
 			c.Clients = append(c.Clients, kinds[r.Intn(len(kinds))])
@@ -407,7 +471,7 @@ func c18Key(problem string) string {
 	switch {
 	case strings.Contains(problem, "panic"):
 		return "c18-panic"
-	case strings.Contains(problem, "still accepts connections") || strings.Contains(problem, "cannot be started again"):
+	case strings.Contains(problem, "still accepts connections") || strings.Contains(problem, "cannot be started again") || strings.Contains(problem, "is still open 4 s after Close"):
 		return "c18-listener-left"
 	case strings.Contains(problem, "instead of the server-closed error"):
 		return "c18-serve-error"
@@ -435,7 +499,7 @@ func init() {
 		return nil
 	})
 	Register("c18", func(e *Env) error {
-		e.Rep.Rule = "real Server with 1-2 listeners (in-process, TCP, WebSocket), Close at a chosen moment (during start-up, when ready, during an accept storm, with established / half-open / refused clients) with jitter; each round runs in a child process so that panics on library goroutines are observed; non-trivial = a round whose server started; distinct = distinct (case, outcome class)"
+		e.Rep.Rule = "real Server with 1-2 listeners (in-process, TCP, WebSocket), Close at a chosen moment (during start-up, when ready, during an accept storm, with established / half-open / refused clients, with a session whose inbound notifications are not being consumed, with a WebSocket connection in the middle of its upgrade request) with jitter; each round runs in a child process so that panics on library goroutines are observed; non-trivial = a round whose server started; distinct = distinct (case, outcome class)"
 		cases := []interface{}{}
 		if e.Replay != "" {
 			b, err := readReplayCase(e.Replay)
@@ -450,6 +514,16 @@ func init() {
 				cases = append(cases, &c)
 			}
 		} else {
+			// fixed cases first: a session whose inbound notifications are not being consumed when the server
+			// is closed (one-slot buffer, handler holding on to the first), and a WebSocket connection in
+			// the middle of its upgrade request at Close
+			for rep := 0; rep < e.N(2, 6); rep++ {
+				cases = append(cases,
+					&c18Case{Listeners: []string{"inproc"}, Clients: []string{"est-flood"}, CloseAt: "clients"},
+					&c18Case{Listeners: []string{"tcp"}, Clients: []string{"est-flood", "est"}, CloseAt: "clients"},
+					&c18Case{Listeners: []string{"ws"}, Clients: []string{"est", "half-upgrade"}, CloseAt: "clients"},
+					&c18Case{Listeners: []string{"ws", "inproc"}, Clients: []string{"half-upgrade", "est"}, CloseAt: "clients", JitterUs: 200})
+			}
 			n := e.N(240, 4000)
 			for i := 0; i < n; i++ {
 				cases = append(cases, genC18Case(e))
